@@ -91,11 +91,13 @@ pub fn token_lookalike_cases() -> Vec<(Vec<String>, u32)> {
 
 /// Periods nested `depth` levels deep: ((((u^a v)^b w)^c x)^d ...), every level repeated 2-3 times.
 pub fn nested_periods(rng: &mut Rng, al: &[String], depth: usize) -> String {
-    let mut s = rng.pick(al).repeat(2 + rng.below(2));
+    // mostly two repeats per level so that depth 5 stays below ~100 graphemes (the search is cubic)
+    let reps = |rng: &mut Rng| if depth <= 3 && rng.chance(1, 3) { 3 } else { 2 };
+    let mut s = rng.pick(al).repeat(reps(rng));
     for _ in 1..depth {
         let x = rng.pick(al).clone();
         s.push_str(&x);
-        s = s.repeat(2 + rng.below(2));
+        s = s.repeat(reps(rng));
     }
     s
 }
@@ -363,7 +365,7 @@ pub fn family(rng: &mut Rng, al: &[String]) -> Vec<String> {
             for _ in 0..n.min(3) {
                 let inner = format!("{}{}", u.repeat(2 + rng.below(2)), v);
                 let mid = format!("{}{}", inner.repeat(2 + rng.below(2)), x);
-                let mut s = if rng.chance(1, 2) { mid.repeat(2 + rng.below(2)) } else { { let d = 4 + rng.below(2); nested_periods(rng, &[u.clone(), v.clone(), x.clone()], d) } };
+                let mut s = if rng.chance(3, 4) { mid.repeat(2 + rng.below(2)) } else { { let d = 4 + rng.below(2); nested_periods(rng, &[u.clone(), v.clone(), x.clone()], d) } };
                 if rng.chance(1, 3) {
                     s.push_str(&unit(rng));
                 }
@@ -493,7 +495,7 @@ pub fn repeat_family(rng: &mut Rng, al: &[String]) -> Vec<String> {
                 // three levels: ((a^i b)^j c)^k
                 let inner = format!("{}{}", a.repeat(2 + rng.below(2)), b);
                 let mid = format!("{}{}", inner.repeat(2 + rng.below(2)), c);
-                if rng.chance(1, 2) {
+                if rng.chance(3, 4) {
                     mid.repeat(2 + rng.below(2))
                 } else {
                     let d = 4 + rng.below(2);
